@@ -6,7 +6,9 @@ Decided here:
           A[p W q] = not E[not q U (not p & not q)]  (Boolean-normalised, fixed points by scheme);
   C13-R2  eval_node, partially evaluated for `l EW r` and `l AW r`, computes that equation over the recursive results
           of the left and right operand (operand order, graph, steady states);
-  C13-R3  the fixed-point loops these evaluators rely on run to stabilisation.
+  C13-R3  the fixed-point loops these evaluators rely on run to stabilisation;
+  C13-R4  the texts `EW` and `AW` are tokenised to BinaryOp::EW / BinaryOp::AW whatever follows (first-decision table of the
+          tokenizer, shared with C06-R4) - otherwise a written weak until is evaluated as another operator.
 Not decided: path semantics of the underlying EU / AU / EG (C11 gives their equations)."""
 import evalnode as E
 import semantics as sem
@@ -50,3 +52,15 @@ def run(prog, rep):
             seen.add(f.qual)
             sem.check_loop_protocol(rep, "C13-R3", prog, f, eng)
     rep.floor("C13-R3", 2)
+    # the formula text: `EW` / `AW` are read as the weak-until operators (not as another operator of the family) - the tokenizer's
+    # first-decision table, shared with C06-R4
+    import tokrules as TR
+    rep.rule("C13-R4", "the operator texts EW / AW are tokenised to the weak-until operators")
+    m = TR.model(prog)
+    if not m.ok:
+        rep.unresolved("C13-R4", "tokenizer/model", "", "the tokenizer's main loop could not be modelled")
+    else:
+        for text in ("EW", "AW"):
+            good, why = TR.reads_back(m, text, "Binary", text)
+            rep.check(good, "C13-R4", f"tokenizer/{text}", f"{m.fn.file}:{m.fn.line}", f"`{text}` is tokenised as BinaryOp::{text}", why)
+    rep.floor("C13-R4", 2)
